@@ -173,9 +173,13 @@ type Set struct {
 
 // BuildSet writes the packets of a recovery set for the given files,
 // slice size and recovery exponents, from the specification.
-func BuildSet(files []Protected, sliceSize int, exponents []int, creator string) *Set {
+func BuildSet(files []Protected, sliceSize int, exponents []int, creator string, nonRecovery ...Protected) *Set {
 	s := &Set{SliceSize: sliceSize, Recovery: map[int][]byte{}}
 	s.Files = SortByFileID(files)
+	// files of the non-recovery set: listed in the main packet after the
+	// recovery set and described by the same two packets, but not part
+	// of the Reed-Solomon computation
+	nonRec := SortByFileID(nonRecovery)
 	// main packet body
 	var main []byte
 	var u8 [8]byte
@@ -187,10 +191,13 @@ func BuildSet(files []Protected, sliceSize int, exponents []int, creator string)
 	for _, f := range s.Files {
 		main = append(main, f.ID[:]...)
 	}
+	for _, f := range nonRec {
+		main = append(main, f.ID[:]...)
+	}
 	s.SetID = md5.Sum(main)
 	s.Main = MakePacket(s.SetID, TypeMain, main)
 	s.Creator = MakePacket(s.SetID, TypeCreator, []byte(creator))
-	for _, f := range s.Files {
+	for fi, f := range append(append([]FileInfo(nil), s.Files...), nonRec...) {
 		var fd []byte
 		fd = append(fd, f.ID[:]...)
 		full := md5.Sum(f.Data)
@@ -206,7 +213,9 @@ func BuildSet(files []Protected, sliceSize int, exponents []int, creator string)
 		for o := 0; o < len(f.Data); o += sliceSize {
 			sl := make([]byte, sliceSize)
 			copy(sl, f.Data[o:])
-			s.Slices = append(s.Slices, sl)
+			if fi < len(s.Files) {
+				s.Slices = append(s.Slices, sl)
+			}
 			m := md5.Sum(sl)
 			ifsc = append(ifsc, m[:]...)
 			binary.LittleEndian.PutUint32(u4[:], crc32.ChecksumIEEE(sl))
